@@ -142,19 +142,20 @@ package client
 //@   ensures sends-every-live-matching-cookie: !exists(k, 0, jarLen(cj, rHost(req)), pathMatch(rPath(req), jcPath[jarAt(cj, rHost(req), k)]) && !jarHas[req.Header][ckKey[jarAt(cj, rHost(req), k)]])
 //@   ensures other-headers-untouched: !existsI(h, h != req.Header && (jarHas[h] != old(jarHas[h]) || jarVal[h] != old(jarVal[h])))
 
-// SetByHost(host, cookies...): files copies of the given cookies under exactly `host`. A cookie whose
+// SetByHost(host, cookies...): files copies of the given cookies under exactly `host` without its port -
+// the key Get / dumpCookiesToReq look under. A cookie whose
 // (key, path) is already stored is overwritten in place, any other one gets a cookie object of its own
 // from the pool - never one that the list already holds. Entries of other hosts are not touched.
 //@ macro sameAttrs(a, b) = ckKey[a] == ckKey[b] && ckVal[a] == ckVal[b] && jcPath[a] == jcPath[b] && jcExp[a] == jcExp[b]
 //@ func (*CookieJar).SetByHost
 //@   requires lock-free: !held(cj.mu)
-//@   requires list-not-pooled: listNoPooled(cj, str(host))
-//@   requires list-no-duplicates: listNoDup(cj, str(host))
+//@   requires list-not-pooled: listNoPooled(cj, jarHost(str(host)))
+//@   requires list-no-duplicates: listNoDup(cj, jarHost(str(host)))
 //@   requires caller-holds-its-cookies: !exists(n, 0, len(cookies), cookies[n] == nil || jcPooled[cookies[n]])
-//@   requires given-cookies-are-not-the-jars: !exists(n, 0, jarLen(cj, str(host)), exists(m, 0, len(cookies), jarAt(cj, str(host), n) == cookies[m]))
-//@   requires given-slice-is-not-the-jars: arr(cookies) == nil || !indom(cj.hostCookies, str(host)) || arr(cookies) != arr(cj.hostCookies[str(host)])
+//@   requires given-cookies-are-not-the-jars: !exists(n, 0, jarLen(cj, jarHost(str(host))), exists(m, 0, len(cookies), jarAt(cj, jarHost(str(host)), n) == cookies[m]))
+//@   requires given-slice-is-not-the-jars: arr(cookies) == nil || !indom(cj.hostCookies, jarHost(str(host))) || arr(cookies) != arr(cj.hostCookies[jarHost(str(host))])
 //@   modifies jcPooled, ckKey, ckVal, jcPath, jcExp, cj.hostCookies, heap(E_p_fasthttp_Cookie), heap(MV_string_LJp_fasthttp_Cookie), heap(MD_string_LJp_fasthttp_Cookie)
-//@   lock cj.mu protects jcPooled inv jar-holds-no-pooled-cookie: listNoPooled(cj, str(host)) && !exists(n, 0, len(cookies), cookies[n] == nil || jcPooled[cookies[n]])
+//@   lock cj.mu protects jcPooled inv jar-holds-no-pooled-cookie: listNoPooled(cj, jarHost(str(old(host)))) && !exists(n, 0, len(cookies), cookies[n] == nil || jcPooled[cookies[n]])
 //@   atcall searchCookieByKeyAndPath: looks-up-this-cookie-under-lock: held(cj.mu) && str(key) == ckKey[cookie] && str(path) == jcPath[cookie]
 //@   atcall @fasthttp.AcquireCookie: only-for-a-cookie-not-yet-stored: held(cj.mu) && last(searchCookieByKeyAndPath) == nil
 //@   atcall @fasthttp.(*Cookie).CopyTo: copies-the-given-cookie-into-the-jars-own: held(cj.mu) && src == cookie && c != cookie
@@ -165,51 +166,51 @@ package client
 //@     invariant list-distinct: !exists(n, 0, len(hostCookies), exists(m, 0, n, hostCookies[m] == hostCookies[n]))
 //@     invariant list-not-the-callers: !exists(n, 0, len(hostCookies), exists(m, 0, len(cookies), hostCookies[n] == cookies[m]))
 //@     invariant inputs-held: !exists(n, 0, len(cookies), cookies[n] == nil || jcPooled[cookies[n]])
-//@     invariant earlier-entries-kept: len(hostCookies) >= old(jarLen(cj, str(host))) && !exists(k, 0, old(jarLen(cj, str(host))), hostCookies[k] != old(jarAt(cj, str(host), k)))
+//@     invariant earlier-entries-kept: len(hostCookies) >= old(jarLen(cj, jarHost(str(host)))) && !exists(k, 0, old(jarLen(cj, jarHost(str(host)))), hostCookies[k] != old(jarAt(cj, jarHost(str(host)), k)))
 //@     invariant current-stored: rangeindex >= 0 ==> exists(n, 0, len(hostCookies), sameAttrs(hostCookies[n], cookies[rangeindex]))
 //@     invariant inputs-unchanged: !exists(n, 0, len(cookies), ckKey[cookies[n]] != old(ckKey[cookies[n]]) || ckVal[cookies[n]] != old(ckVal[cookies[n]]) || jcPath[cookies[n]] != old(jcPath[cookies[n]]) || jcExp[cookies[n]] != old(jcExp[cookies[n]]))
-//@     invariant other-hosts-kept: !existsS(h, h != str(host) && old(cj.hostCookies) != nil && (indom(cj.hostCookies, h) != old(indom(cj.hostCookies, h)) || cj.hostCookies[h] != old(cj.hostCookies[h])))
-//@   ensures last-given-cookie-is-stored: len(cookies) > 0 ==> exists(n, 0, jarLen(cj, str(host)), sameAttrs(jarAt(cj, str(host), n), cookies[len(cookies) - 1]))
-//@   ensures stores-copies: !exists(n, 0, jarLen(cj, str(host)), exists(m, 0, len(cookies), jarAt(cj, str(host), n) == cookies[m]))
+//@     invariant other-hosts-kept: !existsS(h, h != jarHost(str(host)) && old(cj.hostCookies) != nil && (indom(cj.hostCookies, h) != old(indom(cj.hostCookies, h)) || cj.hostCookies[h] != old(cj.hostCookies[h])))
+//@   ensures last-given-cookie-is-stored: len(cookies) > 0 ==> exists(n, 0, jarLen(cj, jarHost(str(host))), sameAttrs(jarAt(cj, jarHost(str(host)), n), cookies[len(cookies) - 1]))
+//@   ensures stores-copies: !exists(n, 0, jarLen(cj, jarHost(str(host))), exists(m, 0, len(cookies), jarAt(cj, jarHost(str(host)), n) == cookies[m]))
 //@   ensures given-cookies-unchanged: !exists(n, 0, len(cookies), ckKey[cookies[n]] != old(ckKey[cookies[n]]) || ckVal[cookies[n]] != old(ckVal[cookies[n]]) || jcPath[cookies[n]] != old(jcPath[cookies[n]]) || jcExp[cookies[n]] != old(jcExp[cookies[n]]))
-//@   ensures earlier-entries-kept: jarLen(cj, str(host)) >= old(jarLen(cj, str(host))) && !exists(k, 0, old(jarLen(cj, str(host))), jarAt(cj, str(host), k) != old(jarAt(cj, str(host), k)))
-//@   ensures other-hosts-untouched: !existsS(h, h != str(host) && old(cj.hostCookies) != nil && (indom(cj.hostCookies, h) != old(indom(cj.hostCookies, h)) || cj.hostCookies[h] != old(cj.hostCookies[h])))
-//@   ensures list-not-pooled: listNoPooled(cj, str(host))
-//@   ensures list-no-duplicates: listNoDup(cj, str(host))
+//@   ensures earlier-entries-kept: jarLen(cj, jarHost(str(host))) >= old(jarLen(cj, jarHost(str(host)))) && !exists(k, 0, old(jarLen(cj, jarHost(str(host)))), jarAt(cj, jarHost(str(host)), k) != old(jarAt(cj, jarHost(str(host)), k)))
+//@   ensures other-hosts-untouched: !existsS(h, h != jarHost(str(host)) && old(cj.hostCookies) != nil && (indom(cj.hostCookies, h) != old(indom(cj.hostCookies, h)) || cj.hostCookies[h] != old(cj.hostCookies[h])))
+//@   ensures list-not-pooled: listNoPooled(cj, jarHost(str(host)))
+//@   ensures list-no-duplicates: listNoDup(cj, jarHost(str(host)))
 
 // Set(uri, cookies...): files the cookies under the host of the URL - the host Get(uri) and
 // dumpCookiesToReq look under, i.e. without the port.
 //@ func (*CookieJar).Set
 //@   requires lock-free: !held(cj.mu)
-//@   requires list-not-pooled: uri != nil ==> listNoPooled(cj, uriHost(uri, epoch))
-//@   requires list-no-duplicates: uri != nil ==> listNoDup(cj, uriHost(uri, epoch))
+//@   requires list-not-pooled: uri != nil ==> listNoPooled(cj, jarHost(uriHost(uri, epoch)))
+//@   requires list-no-duplicates: uri != nil ==> listNoDup(cj, jarHost(uriHost(uri, epoch)))
 //@   requires caller-holds-its-cookies: !exists(n, 0, len(cookies), cookies[n] == nil || jcPooled[cookies[n]])
-//@   requires given-cookies-are-not-the-jars: uri != nil ==> !exists(n, 0, jarLen(cj, uriHost(uri, epoch)), exists(m, 0, len(cookies), jarAt(cj, uriHost(uri, epoch), n) == cookies[m]))
-//@   requires given-slice-is-not-the-jars: uri == nil || arr(cookies) == nil || !indom(cj.hostCookies, uriHost(uri, epoch)) || arr(cookies) != arr(cj.hostCookies[uriHost(uri, epoch)])
+//@   requires given-cookies-are-not-the-jars: uri != nil ==> !exists(n, 0, jarLen(cj, jarHost(uriHost(uri, epoch))), exists(m, 0, len(cookies), jarAt(cj, jarHost(uriHost(uri, epoch)), n) == cookies[m]))
+//@   requires given-slice-is-not-the-jars: uri == nil || arr(cookies) == nil || !indom(cj.hostCookies, jarHost(uriHost(uri, epoch))) || arr(cookies) != arr(cj.hostCookies[jarHost(uriHost(uri, epoch))])
 //@   modifies jcPooled, ckKey, ckVal, jcPath, jcExp, cj.hostCookies, heap(E_p_fasthttp_Cookie), heap(MV_string_LJp_fasthttp_Cookie), heap(MD_string_LJp_fasthttp_Cookie)
-//@   atcall (*CookieJar).SetByHost: filed-where-get-looks: str(host) == jarHost(uriHost(uri, epoch))
-//@   ensures last-given-cookie-is-stored: uri != nil && len(cookies) > 0 ==> exists(n, 0, jarLen(cj, uriHost(uri, epoch)), sameAttrs(jarAt(cj, uriHost(uri, epoch), n), cookies[len(cookies) - 1]))
+//@   atcall (*CookieJar).SetByHost: files-under-the-host-of-the-url: str(host) == uriHost(uri, epoch)
+//@   ensures last-given-cookie-is-stored: uri != nil && len(cookies) > 0 ==> exists(n, 0, jarLen(cj, jarHost(uriHost(uri, epoch))), sameAttrs(jarAt(cj, jarHost(uriHost(uri, epoch)), n), cookies[len(cookies) - 1]))
 //@   ensures no-uri-no-effect: uri == nil ==> cj.hostCookies == old(cj.hostCookies)
 
-// SetKeyValue / SetKeyValueBytes(host, key, value): a session cookie key=value for every path of `host`.
+// SetKeyValue / SetKeyValueBytes(host, key, value): a session cookie key=value for every path of `host` (filed without the port).
 //@ func (*CookieJar).SetKeyValue
 //@   requires lock-free: !held(cj.mu)
-//@   requires list-exists: !indom(cj.hostCookies, host) || arr(cj.hostCookies[host]) == nil || allocated(arr(cj.hostCookies[host]))
-//@   requires list-not-pooled: listNoPooled(cj, host)
-//@   requires list-no-duplicates: listNoDup(cj, host)
+//@   requires list-exists: !indom(cj.hostCookies, jarHost(host)) || arr(cj.hostCookies[jarHost(host)]) == nil || allocated(arr(cj.hostCookies[jarHost(host)]))
+//@   requires list-not-pooled: listNoPooled(cj, jarHost(host))
+//@   requires list-no-duplicates: listNoDup(cj, jarHost(host))
 //@   modifies jcPooled, ckKey, ckVal, jcPath, jcExp, cj.hostCookies, heap(E_p_fasthttp_Cookie), heap(MV_string_LJp_fasthttp_Cookie), heap(MD_string_LJp_fasthttp_Cookie)
-//@   ensures stored: exists(n, 0, jarLen(cj, host), ckKey[jarAt(cj, host, n)] == key && ckVal[jarAt(cj, host, n)] == value && jcPath[jarAt(cj, host, n)] == "" && tUnlimited(jcExp[jarAt(cj, host, n)]))
-//@   ensures list-not-pooled: listNoPooled(cj, host)
-//@   ensures list-no-duplicates: listNoDup(cj, host)
+//@   ensures stored: exists(n, 0, jarLen(cj, jarHost(host)), ckKey[jarAt(cj, jarHost(host), n)] == key && ckVal[jarAt(cj, jarHost(host), n)] == value && jcPath[jarAt(cj, jarHost(host), n)] == "" && tUnlimited(jcExp[jarAt(cj, jarHost(host), n)]))
+//@   ensures list-not-pooled: listNoPooled(cj, jarHost(host))
+//@   ensures list-no-duplicates: listNoDup(cj, jarHost(host))
 //@ func (*CookieJar).SetKeyValueBytes
 //@   requires lock-free: !held(cj.mu)
-//@   requires list-exists: !indom(cj.hostCookies, host) || arr(cj.hostCookies[host]) == nil || allocated(arr(cj.hostCookies[host]))
-//@   requires list-not-pooled: listNoPooled(cj, host)
-//@   requires list-no-duplicates: listNoDup(cj, host)
+//@   requires list-exists: !indom(cj.hostCookies, jarHost(host)) || arr(cj.hostCookies[jarHost(host)]) == nil || allocated(arr(cj.hostCookies[jarHost(host)]))
+//@   requires list-not-pooled: listNoPooled(cj, jarHost(host))
+//@   requires list-no-duplicates: listNoDup(cj, jarHost(host))
 //@   modifies jcPooled, ckKey, ckVal, jcPath, jcExp, cj.hostCookies, heap(E_p_fasthttp_Cookie), heap(MV_string_LJp_fasthttp_Cookie), heap(MD_string_LJp_fasthttp_Cookie)
-//@   ensures stored: exists(n, 0, jarLen(cj, host), ckKey[jarAt(cj, host, n)] == old(str(key)) && ckVal[jarAt(cj, host, n)] == old(str(value)) && jcPath[jarAt(cj, host, n)] == "" && tUnlimited(jcExp[jarAt(cj, host, n)]))
-//@   ensures list-not-pooled: listNoPooled(cj, host)
-//@   ensures list-no-duplicates: listNoDup(cj, host)
+//@   ensures stored: exists(n, 0, jarLen(cj, jarHost(host)), ckKey[jarAt(cj, jarHost(host), n)] == old(str(key)) && ckVal[jarAt(cj, jarHost(host), n)] == old(str(value)) && jcPath[jarAt(cj, jarHost(host), n)] == "" && tUnlimited(jcExp[jarAt(cj, jarHost(host), n)]))
+//@   ensures list-not-pooled: listNoPooled(cj, jarHost(host))
+//@   ensures list-no-duplicates: listNoDup(cj, jarHost(host))
 
 // Release(): the jar is empty afterwards - no host has a cookie. ReleaseCookieJar: the same, before the
 // jar goes back to its pool (so the next AcquireCookieJar starts empty).
@@ -255,11 +256,10 @@ package client
 // is filed back under the host that Get / dumpCookiesToReq look under (without the port).
 //@ func (*CookieJar).parseCookiesFromResp
 //@   requires lock-free: !held(cj.mu)
-//@   requires list-not-pooled: listNoPooled(cj, str(host))
-//@   requires list-no-duplicates: listNoDup(cj, str(host))
-//@   lock cj.mu protects jcPooled inv jar-holds-no-pooled-cookie: listNoPooled(cj, old(str(host)))
+//@   requires list-not-pooled: listNoPooled(cj, jarHost(str(host)))
+//@   requires list-no-duplicates: listNoDup(cj, jarHost(str(host)))
+//@   lock cj.mu protects jcPooled inv jar-holds-no-pooled-cookie: listNoPooled(cj, jarHost(old(str(host))))
 //@   atcall @fasthttp.(*ResponseHeader).VisitAllCookie: under-lock: held(cj.mu)
-//@   ensures filed-under-the-host: cj.hostCookies != nil ==> indom(cj.hostCookies, old(str(host)))
 //@   ensures filed-where-get-looks: cj.hostCookies != nil ==> indom(cj.hostCookies, jarHost(old(str(host))))
 
 // ---------------------------------------------------------------------------------------------
